@@ -434,6 +434,14 @@ class Gen:
         a.risk = True
         return a
 
+    def ref_leaf(self, t, bound):
+        """an index operand that is a reference to a declared object (port, view or slice of a port)"""
+        for _ in range(6):
+            m = self.leaf(t, const_ok=False)
+            if m.ports and not m.tag.startswith("resize"):
+                return m
+        return int_lit(self.r.randrange(bound))
+
     def nonconst(self, n):
         """selectors / indices / conditions are run-time objects"""
         if n.ports:
@@ -448,10 +456,7 @@ class Gen:
         k, w = t
         c = self.nonconst(self.cond(d - 1))
         a = self.gen(t, d - 1)
-        if k in ("u", "s") and self.r.random() < 0.4 and self.widths_le(w):
-            b = self.gen((k, self.r.choice(self.widths_le(w))), d - 1)       # wider alternative first: joined at the wider width
-        else:
-            b = self.gen(t, d - 1)
+        b = self.gen(t, d - 1)
         return Node(t, f"({a.py} if {c.py} else {b.py})", f"(XIte {c.cq} {a.cq} {b.cq})", [c, a, b],
                     tag=f"ite:{tname(c.ty)}?{tname(a.ty)}:{tname(b.ty)}", key=f"ite:{k}")
 
@@ -475,10 +480,7 @@ class Gen:
         has_default = nkeys < len(vals) or r.random() < 0.3
         brs = []
         for i, key in enumerate(keys):
-            bt = t
-            if i > 0 and k in ("u", "s") and r.random() < 0.3:
-                bt = (k, r.choice(self.widths_le(w)))
-            brs.append((key, self.gen(bt, d - 1)))
+            brs.append((key, self.gen(t, d - 1)))
         dflt = self.gen(t, d - 1) if has_default else None
 
         def pykey(z):
@@ -501,8 +503,9 @@ class Gen:
         r = self.r
         n = r.choice([2, 3, 4])
         elems = [self.gen(t, min(d - 1, 1)) for _ in range(n)]
+        elems = [e if not e.risk else self.leaf(t) for e in elems]      # the array is driven by a concurrent context
         if r.random() < 0.7:
-            idx = self.nonconst(self.gen(("u", 2 if 2 in self.W else self.W[0]), d - 1))
+            idx = self.ref_leaf(("u", 2 if 2 in self.W else self.W[0]), n)
         else:
             idx = self.leaf(("int", 0))
             for p_ in idx.ports:
@@ -586,7 +589,7 @@ class Gen:
             a = self.vec_any(w0, d - 1)
             a = self.nonconst(a)
             if r.random() < 0.75:
-                i = self.nonconst(self.gen(("u", r.choice([x for x in self.W if x <= 2] or [self.W[0]])), d - 1))
+                i = self.ref_leaf(("u", r.choice([x for x in self.W if x <= 2] or [self.W[0]])), w0)
             else:
                 i = self.leaf(("int", 0))
                 for p_ in i.ports:
@@ -681,8 +684,10 @@ class Gen:
             sym, B = {"add": ("+", "BAdd"), "sub": ("-", "BSub"), "mul": ("*", "BMul")}[p]
             a = self.gen(t, d - 1)
             b = self.gen(t, d - 1) if r.random() < 0.6 else int_lit(r.randint(0, 3))
-            if not a.ports and not b.ports:
+            if not a.ports:
                 a = self.leaf(t)
+            if not a.ports:
+                return None
             nd = Node(t, f"({a.py} {sym} {b.py})", f"(XBin {B} {a.cq} {b.cq})", [a, b], tag=f"{p}:int,int", key=f"{p}:int,int")
             nd.nat = a.nat and b.nat and p != "sub"
             return nd
@@ -965,14 +970,37 @@ def candidates(W):
         out.append(Node(S, f.format(x.py, i.py), f"(XBin {B} {x.cq} {i.cq})", [x, i], tag=f"{nm}:s{w},bigint", key=f"{nm}:s,int_out_of_range"))
         x, i = a(), int_lit(big)
         out.append(Node(U, f.format(x.py, i.py), f"(XBin {B} {x.cq} {i.cq})", [x, i], tag=f"{nm}:u{w},bigint", key=f"{nm}:u,int_out_of_range"))
-    # if-expression whose first alternative is the narrower one, used as an operand
-    c, x, y = P("x", ("bit", 1)), P(f"b{W[0]}", ("u", W[0])), a()
-    ite = Node(U, f"({x.py} if {c.py} else {y.py})", f"(XIte {c.cq} {x.cq} {y.cq})", [c, x, y], tag=f"ite:bit?u{W[0]}:u{w}", key="ite:u(narrow_first)")
-    out.append(ite)
-    c, x, y = P("x", ("bit", 1)), P(f"b{W[0]}", ("u", W[0])), a()
-    ite2 = Node(U, f"({x.py} if {c.py} else {y.py})", f"(XIte {c.cq} {x.cq} {y.cq})", [c, x, y], tag=f"ite:bit?u{W[0]}:u{w}", key="ite:u(narrow_first)")
-    one = int_lit(1)
-    out.append(Node(U, f"({ite2.py} + {one.py})", f"(XBin BAdd {ite2.cq} {one.cq})", [ite2, one], tag=f"add:ite(narrow_first),int", key="operand:ite(narrow_first)"))
+    # if-expression / select_with whose alternatives have different widths: at the root and as an operand
+    wn = W[0]
+    for first_narrow in (True, False):
+        c, x, y = P("x", ("bit", 1)), P(f"b{wn}", ("u", wn)), a()
+        l, r_ = (x, y) if first_narrow else (y, x)
+        out.append(Node(U, f"({l.py} if {c.py} else {r_.py})", f"(XIte {c.cq} {l.cq} {r_.cq})", [c, l, r_], tag=f"ite:bit?{tname(l.ty)}:{tname(r_.ty)}",
+                        key="ite:u(mixed_width)"))
+        c, x, y = P("x", ("bit", 1)), P(f"b{wn}", ("u", wn)), a()
+        l, r_ = (x, y) if first_narrow else (y, x)
+        ite2 = Node(U, f"({l.py} if {c.py} else {r_.py})", f"(XIte {c.cq} {l.cq} {r_.cq})", [c, l, r_], tag=f"ite:bit?{tname(l.ty)}:{tname(r_.ty)}", key="ite:u(mixed_width)")
+        one = int_lit(1)
+        out.append(Node(U, f"({ite2.py} + {one.py})", f"(XBin BAdd {ite2.cq} {one.cq})", [ite2, one], tag="add:ite(mixed_width),int", key="operand:ite(mixed_width)", dims={"promised"}))
+    c, x, y = P("x", ("bit", 1)), P(f"b{wn}", ("u", wn)), a()
+    sel = Node(U, f"cohdl.select_with({c.py}, {{Bit(False): {y.py}, Bit(True): {x.py}}})", f"(XSel {c.cq} [(0%Z, {y.cq}); (1%Z, {x.cq})] None)", [c, y, x],
+               tag="select_with:bit->u(mixed_width)", key="select_with:u(mixed_width)")
+    out.append(sel)
+    c, x, y = P("x", ("bit", 1)), P(f"b{wn}", ("u", wn)), a()
+    sel2 = Node(U, f"cohdl.select_with({c.py}, {{Bit(False): {y.py}, Bit(True): {x.py}}})", f"(XSel {c.cq} [(0%Z, {y.cq}); (1%Z, {x.cq})] None)", [c, y, x],
+                tag="select_with:bit->u(mixed_width)", key="select_with:u(mixed_width)")
+    out.append(Node(("bv", w), f"(~{sel2.py}).bitvector", f"(XView VwBV (XUn NInv {sel2.cq}))", [sel2], tag="invert:select(mixed_width)", key="operand:select_with(mixed_width)", dims={"promised"}))
+    # a run-time index that is itself computed by an operator
+    i2 = 2 if 2 in W else W[0]
+    v, b = a(), P(f"b{i2}", ("u", i2))
+    idx = Node(("u", i2), f"({b.py} >> 1)", f"(XBin BShr {b.cq} (XConst KInt 0%N 1%Z))", [b, int_lit(1)], tag=f"shr:u{i2},int", key="shr:u,int")
+    out.append(Node(("bit", 1), f"{v.py}[{idx.py}]", f"(XIdx {v.cq} {idx.cq})", [v, idx], tag=f"index:u{w}[computed u{i2}]", key="index_runtime:computed_index", dims={"promised"}))
+    b = P(f"b{i2}", ("u", i2))
+    idx = Node(("u", i2), f"({b.py} >> 1)", f"(XBin BShr {b.cq} (XConst KInt 0%N 1%Z))", [b, int_lit(1)], tag=f"shr:u{i2},int", key="shr:u,int")
+    e0, e1 = a(), a()
+    e1 = Node(U, f"(~{e1.py})", f"(XUn NInv {e1.cq})", [e1], tag=f"invert:u{w}", key="invert:u")
+    out.append(Node(U, f"arrc[{idx.py}]", f"(XIdx (XArr [{e0.cq}; {e1.cq}]) {idx.cq})", [e0, e1, idx], tag="array_read:computed_index", key="array_read:computed_index",
+                    pre=[("arrc", pyty(U), 2, (e0.py, e1.py))], dims={"promised"}))
     return out
 
 
@@ -1111,7 +1139,7 @@ def bundle(items, rng, wide=()):
                 continue
             ports = dict(m[1])
             ports.update(dict(key[0]))
-            if alpha_bits(ports, wide) <= MERGE_BITS and len(m[2]) + len(ns) <= 48:
+            if alpha_bits(ports, wide) <= MERGE_BITS and len(m[2]) + len(ns) <= 60:
                 m[1] = ports
                 m[2] += ns
                 break
@@ -1120,13 +1148,13 @@ def bundle(items, rng, wide=()):
     out = []
     for key, ports, ns in merged:
         bits = alpha_bits(ports, wide)
-        per = 64 if bits <= 4 else 48
+        per = 64
         for i in range(0, len(ns), per):
             out.append((key, ns[i:i + per]))
     return out
 
 
-MERGE_BITS = 6.5
+MERGE_BITS = 7.0
 
 
 def walk(n):
@@ -1159,11 +1187,11 @@ def prove(ck, cases, count_first=2):
         c.count = i < count_first and not single
         try:
             X.write_case(ck, c)
-            if single:
-                src = open(c.path).read()
-                k = src.index("Theorem case_ok")
-                with open(c.path, "w") as f:
-                    f.write(src[:k] + X.DIAG_TMPL.format(mid="false", fuel=c.fuel) + src[k:])
+            src = open(c.path).read()
+            k = src.index("Theorem case_ok")
+            extra = X.DIAG_TMPL.format(mid="false", fuel=c.fuel) if single else bad_positions_cmd()
+            with open(c.path, "w") as f:
+                f.write(src[:k] + extra + src[k:])
             ready.append(c)
         except R.Unparsed as e:
             res.append((c, "unparsed", {"log": str(e)}))
@@ -1184,6 +1212,9 @@ def prove(ck, cases, count_first=2):
         else:
             st = "failed"
             info = {"log": (out + err)[-1500:]}
+            for o in os_:
+                if o.startswith("BadPos"):
+                    info["bad_pos"] = [int(x) for x in re.findall(r"\d+", o.replace("%nat", ""))]
             for i, o in verdicts:
                 if o.startswith("VCex"):
                     info = {"diag": "cex", "path": o, "traces": os_[i + 1] if i + 1 < len(os_) else ""}
@@ -1195,6 +1226,28 @@ def prove(ck, cases, count_first=2):
 
 
 ERR_RE = re.compile(r"Err (E\w+)")
+
+
+def bad_positions_cmd():
+    """for a design with several outputs: the output positions that differ from the documented value on some admitted
+    valuation applied to the powered-up design (one step; a diagnosis aid only - the theorem is what is proved)"""
+    m = re.search(r"traceA \((\w+) d \{mid\}\) \((\w+) d\)", X.DIAG_TMPL)
+    step, pup = (m.group(1), m.group(2)) if m else ("sstep", "power_up_s")
+    return f"""Inductive badpos := BadPos (l : list nat).
+Fixpoint mismatch (k : nat) (a b : list value) : list nat :=
+  match a, b with
+  | x :: r, y :: r' => (if value_eqb x y then [] else [k]) ++ mismatch (S k) r r'
+  | [], [] => []
+  | _, _ => [999]
+  end.
+Eval vm_compute in (BadPos (nodup Nat.eq_dec (flat_map (fun i =>
+  match snd ({step} d false ({pup} d) i), snd (stepB initB i) with
+  | Ok a, Ok b => mismatch 0 a b
+  | Err _, Err _ => []
+  | _, _ => [999]
+  end) (filter (assume initB) alphabet)))).
+"""
+
 
 
 def run(ck: common.Check, replay=None):
@@ -1220,7 +1273,7 @@ def run(ck: common.Check, replay=None):
             designs.append(Design(f"sys{k:04d}", ns, clocked))
             k += 1
             # a clocked twin for a sample of the concurrent groups
-            if not clocked and rng.random() < (0.15 if not thorough else 0.3):
+            if not clocked and rng.random() < (0.1 if not thorough else 0.3) and not any("enum" in n_.dims for n_ in ns):
                 designs.append(Design(f"sys{k:04d}c", ns, True))
                 k += 1
         if thorough:
@@ -1229,10 +1282,10 @@ def run(ck: common.Check, replay=None):
                                  if not any(t in g for t in ("arith_int:", "unary:", "bv:"))], rng, wide):
                 designs.append(Design(f"wide{k:04d}", ns, any(n.risk for n in ns)))
                 k += 1
-        for j, nd in enumerate(candidates(W if not thorough else [1, 2, 3])):
-            designs.append(Design(f"cand{j:03d}", [nd], False))
+        for j, (g, ns) in enumerate(bundle([("cand", nd) for nd in candidates(W if not thorough else [1, 2, 3])], rng, wide)):
+            designs.append(Design(f"cand{j:03d}", ns, False))
         # random trees: a port universe (<= ~7 input bits) per pack, several trees per design
-        npacks = 18 if not thorough else 150
+        npacks = 14 if not thorough else 150
         per_pack = 9 if not thorough else 10
         G = Gen(rng, W, max_bits=7.2, wide=wide)
         roots = [("bool", 1), ("bit", 1), ("int", 0)] + [(kk, w) for kk in ("u", "s", "bv") for w in sorted(set(W) | {4, 5, 6} if not thorough else set(W) | {5, 6})]
@@ -1250,11 +1303,11 @@ def run(ck: common.Check, replay=None):
                     if nd.kids and nd.ports and all(lo <= hi for lo, hi in nd.cons.values()):
                         break
                     nd = None
-                if nd is None:
+                if nd is None or (nd.risk and "enum" in nd.dims):
                     continue
                 (risky if nd.risk else safe).append(nd)
             if safe:
-                designs.append(Design(f"tree{j:04d}", safe, rng.random() < 0.25))
+                designs.append(Design(f"tree{j:04d}", safe, rng.random() < 0.25 and not any("enum" in n_.dims for n_ in safe)))
             for i in range(0, len(risky), 3):
                 designs.append(Design(f"tree{j:04d}r{i}", risky[i:i + 3], True))
     ph = os.environ.get("C02_PHASES")
@@ -1338,12 +1391,15 @@ def run_designs(ck, designs, wide, singles_only=False):
                 n = d.nodes[0]
                 ck.evaluations += 1
                 ck.hist("rejected", f"{n.key} | {r.get('error_type')}: {r['error'][:60]}")
-                bad_kids = [k for k in n.kids if k.kids]
+                bad_kids = [k for k in n.kids if k.kids and k.ty[0] != "enum"]
                 if bad_kids and level < 6:
                     # reduce: is a sub-expression rejected on its own?
                     nxt += [Design(f"{d.name}k{i}", [k], d.clocked) for i, k in enumerate(bad_kids)]
                     d.nodes[0].dims.add("reject_reduced")
-                if (n.key, "rej") not in seen_fail and PROMISED_REJECT.match(n.key) and not any(k.kids for k in n.kids):
+                ex = ck.cov.setdefault("rejected_examples", [])
+                if len(ex) < 40 and not any(e_["op"] == n.key and e_["error"][:40] == r["error"][:40] for e_ in ex):
+                    ex.append({"op": n.key, "expr": n.py, "type": tname(n.ty), "error": (r.get("error_type") or "") + ": " + r["error"][:160]})
+                if (n.key, "rej") not in seen_fail and PROMISED_REJECT.match(n.key) and (not any(k.kids for k in n.kids) or "promised" in n.dims):
                     seen_fail.add((n.key, "rej"))
                     ck.obligation(False)
                     ck.violation({"op": n.key, "outcome": "rejected"},
@@ -1378,12 +1434,21 @@ def run_designs(ck, designs, wide, singles_only=False):
                 common._cleanup_v(c.path)
                 continue
             if len(d.nodes) > 1:
-                nxt += [Design(f"{d.name}_{i}", [n], d.clocked) for i, n in enumerate(d.nodes)]
+                bp = info.get("bad_pos")
+                if bp and all(i < len(d.nodes) for i in bp) and not getattr(d, "refined", False):
+                    # only the outputs that differ become single-expression designs; the others stay together
+                    nxt += [Design(f"{d.name}_{i}", [d.nodes[i]], d.clocked) for i in bp]
+                    rest = Design(f"{d.name}_rest", [n for i, n in enumerate(d.nodes) if i not in bp], d.clocked)
+                    rest.refined = True
+                    if rest.nodes:
+                        nxt.append(rest)
+                else:
+                    nxt += [Design(f"{d.name}_{i}", [n], d.clocked) for i, n in enumerate(d.nodes)]
                 continue
             n = d.nodes[0]
             d.failed = True
             d.kid_designs = []
-            kids = [k for k in n.kids if k.kids]
+            kids = [k for k in n.kids if k.kids and k.ty[0] != "enum"]
             if kids and level < 6 and ("red", n.py) not in seen_fail:
                 # reduce: do the sub-expressions fail on their own?
                 seen_fail.add(("red", n.py))
